@@ -174,3 +174,37 @@ func VerifH_C08_pipeline() {
 	vAssert(vSame(got, want), "kept-elements-in-file-order")
 	sc.Close()
 }
+
+// VerifH_C08_nextBlock: what a decoder keeps from a REJECTED element must not show up in
+// the next block it decodes: block 1 is rich (info, tags, children) and filtered by an
+// arbitrary predicate, block 2 on the same decoder holds one plain element of the same
+// kind (no info, no tags, no members) that is accepted: it equals its own specification.
+func VerifH_C08_nextBlock() {
+	kinds := []int{1, 2, 4}[vRange("kind", 0, 2)]
+	m1 := c08Block(kinds, vParam("n", 2))
+	m2 := &mBlock{width: 2}
+	m2.genStrings(1)
+	m2.genParams(0)
+	m2.exact = true
+	switch kinds {
+	case 1:
+		m2.genDense(1, -1, 0, false)
+	case 2:
+		m2.ways = append(m2.ways, m2.genWay(-1, -1, 1, 1))
+	case 4:
+		m2.rels = append(m2.rels, m2.genRel(-1, -1, 1, false))
+	}
+	second := false
+	sc := &Scanner{}
+	sc.FilterNode = func(n *osm.Node) bool { return second || vBool("keepNode") }
+	sc.FilterWay = func(w *osm.Way) bool { return second || vBool("keepWay") }
+	sc.FilterRelation = func(r *osm.Relation) bool { return second || vBool("keepRel") }
+	dd := &dataDecoder{scanner: sc}
+	_, err := c01Decode(dd, m1)
+	vAssert(err == nil, "no-error")
+	second = true
+	objs, err := c01Decode(dd, m2)
+	vReach("decoded")
+	vAssert(err == nil, "no-error")
+	vAssert(vSame(objs, m2.expected()), "next-block-takes-nothing-from-rejected-elements")
+}
